@@ -409,11 +409,11 @@ def mutated_arguments(ctx):
                     ]
                     for what, call_ in calls:
                         try:
+                            want = call_(list(fresh2))      # the reference first: a list object that is never touched again
                             lst = list(pats)
-                            call_(lst)                      # first call with the list object
+                            call_(lst)                      # a call with the caller's list object
                             lst[:] = fresh2                 # the caller re-uses its list
                             got = call_(lst)
-                            want = call_(list(fresh2))      # a list object never seen before
                             m = mod.compile(lst, flags=fl)
                             before = m.filter(nm)
                             lst[:] = conv(['zz'])           # mutating the list afterwards does not reach into the matcher
